@@ -193,6 +193,12 @@ func seqProfile0(prop, tier string) *SeqProfile {
 			},
 			Rule: "C20: every Log.Backup / klevdb.Backup call (fresh target, or repeated into the same target after publish-only steps) judged: no error, source answers unchanged, target passes Check, opens, scans to the abstract live sequence with the same NextOffset and answers the query sweep like the source.",
 		}
+	case "C08":
+		return &SeqProfile{Prop: prop, NRandom: 0, Module: "TraceLin.tla", Cfg: "TraceLin.cfg",
+			Extra: runC08,
+			Rule: "C08: a case is one concurrent history of the real code, built with the race detector: (i) seeded free-running mixes (2-5 goroutines x 3-8 calls of Publish, Consume, Get, GetByKey, ConsumeByKey, GetByTime, Delete, Sync, NextOffset, Stat, GC on prepared small-rollover logs with holes, warm and cold readers, KeepRewriteVersion on/off), (ii) window placement: a call A (Publish with/without rollover, Delete in head/reader segment, Consume with reader load, GC) is held at one of 19 pause points and two further calls run inside the window (or block on A's locks), then a closing scan. TLC (TraceLin) searches a linearization of every history against KlevAbs; a data race report of the race detector is a violation of its own.",
+			Assume: []string{"the Go race detector decides data-race freedom on the schedules that occur", "a call that does not finish within 25 ms inside a window is classified as blocked and stays pending until the window closes"},
+		}
 	case "C18":
 		return &SeqProfile{Prop: prop, NRandom: 0, Module: "TraceNotifyFinal.tla", Cfg: "TraceNotifyFinal.cfg",
 			Design: []DesignRun{{Module: "MCNotify.tla", Cfg: "notify_q.cfg", Workers: 8, Timeout: 10 * time.Minute,
